@@ -191,6 +191,23 @@ func lockMethod(call *ast.CallExpr) string {
 	return ""
 }
 
+// isOnceDo reports whether call is (*sync.Once).Do.
+func (rw *rewriter) isOnceDo(call *ast.CallExpr) bool {
+	sel, ok := call.Fun.(*ast.SelectorExpr)
+	if !ok || sel.Sel.Name != "Do" || len(call.Args) != 1 {
+		return false
+	}
+	t := rw.info.TypeOf(sel.X)
+	if t == nil {
+		return false
+	}
+	if p, ok := t.(*types.Pointer); ok {
+		t = p.Elem()
+	}
+	n, ok := t.(*types.Named)
+	return ok && n.Obj().Pkg() != nil && n.Obj().Pkg().Path() == "sync" && n.Obj().Name() == "Once"
+}
+
 func callsLock(n ast.Node) bool {
 	found := false
 	ast.Inspect(n, func(n ast.Node) bool {
@@ -297,6 +314,13 @@ func (rw *rewriter) stmt(s ast.Stmt, yield bool) (pre []ast.Stmt, repl ast.Stmt,
 	case *ast.ExprStmt:
 		rw.expr(s.X, yield)
 		if c, ok := s.X.(*ast.CallExpr); ok {
+			if rw.isOnceDo(c) {
+				// whatever runs inside sync.Once.Do runs with the Once's mutex held, however the function is spelled
+				// (literal, method value, named function): no preemption in there, or a second caller blocks for good
+				pre = append(pre, simCall("LockDelta", intLit(1)))
+				post = append(post, simCall("LockDelta", intLit(-1)))
+				rw.nLock++
+			}
 			switch lockMethod(c) {
 			case "Lock", "RLock":
 				post = append(post, simCall("LockDelta", intLit(1)))
